@@ -35,11 +35,14 @@ class CallGraph:
             for o in outs:
                 self.pred.setdefault(o, set()).add(fn.path)
 
-    def reachable_from(self, roots):
+    def reachable_from(self, roots, stop=()):
+        stop = set(stop)
         seen = set(roots)
         st = list(roots)
         while st:
             x = st.pop()
+            if x in stop:
+                continue
             for y in self.succ.get(x, ()):
                 if y not in seen:
                     seen.add(y)
